@@ -1,15 +1,16 @@
 """C01 (explicit returns; if / else-if / else chains): Parser::{return_, if_}, extracted as they are.  An if statement is (the expression after
 the keyword, the block after it, and — only when an `else` follows — either the block after `else {` or the whole if statement after `else if`),
 in that order of the source; anything else after `else` is a diagnostic.  A let declaration is (the identifier after the keyword, an optional `: type`, an optional
-`= expression`, the semicolon): without `=` it has NO value (the compiler stores nil), with one the expression parsed after it.  A return outside every function is a diagnostic; `return;` is a return without a
+`= expression`, the semicolon): without `=` it has NO value (the compiler stores nil), with one the expression parsed after it.  A launch statement is an expression that ENDS in a call (what Compiler::launch relies on: launchc unit) and a
+semicolon; a raise statement an expression and a semicolon.  A return outside every function is a diagnostic; `return;` is a return without a
 value (also in an initialiser, which answers its instance); `return e;` returns the expression parsed after the keyword — in an initialiser it is
 a diagnostic; the semicolon is demanded.  expr / match_kind / consume_basic / error are stubs."""
 UNIT = dict(
   name='parserret',
-  properties=['C01'],
+  properties=['C01', 'C07', 'C04', 'C02'],
   items=[
     ('laythe_core/src/object/fun.rs', ['enum FunKind']),
-    ('laythe_vm/src/compiler/parser.rs', [("impl<'a> Parser<'a>", ['return_', 'if_', 'let_'])]),
+    ('laythe_vm/src/compiler/parser.rs', [("impl<'a> Parser<'a>", ['return_', 'if_', 'let_', 'launch', 'raise'])]),
   ],
   rewrites=[
     ('R11', 'enum FunKind', dict(drop=['Debug'], add=['Structural'])),
